@@ -17,9 +17,15 @@ CLAIMED = {
     "C02": (True, "exploration", "DESIGN.md §3 C02",
             "Real enqueue_call/send_call/send_reply/send_error/flush on a Connection whose write half records every write call; every free-space value 0..=600 x 7 size/refusal classes systematically, plus 1.2e5 (quick) / 3e6 (thorough) seeded histories of up to 31 operations with sizes aimed at the buffer end and growth steps, refused serialisations at any position, write stalls, a failing write and abandoned flushes; compared op by op with a list-of-pending-frames reference writer (frame count, order, one write per flush, JSON value of each frame).",
             "Frames are compared by JSON value (byte identity with serde_json is C03, not claimed). Stub writes are all-or-nothing."),
+    "C06": (True, "exploration", "DESIGN.md §3 C06",
+            "Real chain_call/append/send stream and a proxy #[zlink(more)] method against a scripted conforming server: every chain of up to 3 (quick) / 4 (thorough) calls over {plain, oneway, more} x 4 reply styles x 3 deliveries systematically, plus 1.2e5 / 2e6 seeded chains of up to 6 calls with trailing frames of a later exchange and arbitrary chunking. Oracle: one write with the calls in order and right flags; yielded items = owed replies; quiescence with the stream still pending and nothing owed = blocked-on-unowed-reply; later frames still readable.",
+            "Scripted server is conforming and answers only after the whole chain was written."),
+    "C11": (True, "exploration", "DESIGN.md §3 C11",
+            "Same drivers with reply/error types that borrow &str from the receive buffer; the harness holds every yielded item and re-reads all of them after each further item and at the end, for reply sizes inside 256 bytes / one growth step / several and deliveries in one read / one per reply / random. The violation class is computed from the history (overwritten or reallocated by a transport read issued while the item was held = known finding F4; changed without any transport read = always an alarm).",
+            "Buffer growth is observed at the read seam (end address of the slice, or a read that fills its window); held data is only dereferenced when no growth was observed since it was yielded."),
 }
 
-PLANNED = {"C06", "C08", "C09", "C10", "C11", "C17", "C18", "C19", "C20"}
+PLANNED = {"C08", "C09", "C10", "C17", "C18", "C19", "C20"}
 
 NOT_BUILT_REASON = "claimed in DESIGN.md but its check is not built yet in this commit"
 
